@@ -1,0 +1,30 @@
+//go:build verif
+
+package array
+
+// Contracts for the deductive checker in /verif (comment-only file; adds no code).
+//
+//@ func Array.Elements
+//@   ensures !isnil(s) ==> result == s.elems
+//@   ensures isnil(s) ==> isnil(result) && len(result) == 0
+//
+//@ func Array.Len
+//@   requires !isnil(s)
+//@   ensures result == len(s.elems)
+//
+//@ func Array.Empty
+//@   requires !isnil(s)
+//@   ensures result <==> len(s.elems) == 0
+//
+//@ func Array.Add
+//@   requires !isnil(s)
+//@   ensures len(s.elems) == old(len(s.elems)) + 1
+//@   ensures forall k int :: {s.elems[k]} {old(s.elems[k])} 0 <= k && k < old(len(s.elems)) ==> s.elems[k] == old(s.elems[k])
+//@   ensures s.elems[old(len(s.elems))] == e
+//@   ensures (base(s.elems) == old(base(s.elems)) && off(s.elems) == old(off(s.elems)) && cap(s.elems) == old(cap(s.elems))) || fresh(s.elems)
+//@   ensures old(len(s.elems)) == old(cap(s.elems)) ==> fresh(s.elems)
+//@   modifies s.elems, s.elems[len(s.elems)] if len(s.elems) < cap(s.elems)
+//
+//@ func Array.Get
+//@   requires !isnil(s) && 0 <= n && n < len(s.elems)
+//@   ensures result == s.elems[n]
